@@ -378,7 +378,9 @@ impl Bitstr {
     }
 
     pub fn detach(self) -> Bitstr {
-        if Rc::strong_count(&self.data) == 1 {
+        // a slice that does not start at bit 0 is always copied, so that the
+        // result does not depend on who else holds the buffer
+        if Rc::strong_count(&self.data) == 1 && self.start() == 0 {
             self
         } else if self.len() == 0 {
             Bitstr::new()
